@@ -124,3 +124,23 @@ Proof.
 Qed.
 Print Assumptions bzip2_class_depends_on_source_kind_D11.
 End D11.
+
+From V Require Meta.ReaderImpl Meta.ReaderImplSim Meta.ReaderImplThms.
+Module MetaReaderImplB.
+Import Base.Prelude Base.Prog Flate.Impl Flate.ImplRel Meta.Model Meta.Stream Meta.ReaderImpl Meta.ReaderImplSim Meta.ReaderImplThms.
+(* meta.Reader at implementation level: the delivered bytes and the final error class depend
+   neither on the Read sizes nor on the source (kind, script) *)
+Theorem meta_reader_is_schedule_independent :
+  forall data bf1 fills1 reads1 sched1 obs1 fin1 bf2 fills2 reads2 sched2 obs2 fin2,
+  bytes_lt256 data ->
+  rd_run (mr_new data bf1 fills1 reads1) sched1 = (obs1, fin1) ->
+  rd_run (mr_new data bf2 fills2 reads2) sched2 = (obs2, fin2) ->
+  (prefix_of (delivered obs1) (delivered obs2) \/ prefix_of (delivered obs2) (delivered obs1) \/
+   exists o, prefix_of (delivered obs1) o /\ prefix_of (delivered obs2) o) /\
+  forall e1 e2, run_err obs1 = Some e1 -> run_err obs2 = Some e2 ->
+    delivered obs1 = delivered obs2 /\ e1 = e2 /\
+    (e1 = EEOF -> m_FinalMode fin1 = m_FinalMode fin2 /\ m_nblocks fin1 = m_nblocks fin2 /\
+                  m_inOff fin1 = m_inOff fin2 /\ src_pos fin1 = src_pos fin2).
+Proof. exact meta_reader_schedule_independent. Qed.
+Print Assumptions meta_reader_is_schedule_independent.
+End MetaReaderImplB.
